@@ -91,6 +91,13 @@ func C09(x *Idx) []V {
 		last[e.Proc] = e.Text
 		lastSeq[e.Proc] = i
 	}
+	if !touched {
+		for proc, l := range x.Insts {
+			if sp := x.Spec(proc); sp != nil && !sp.ReadyProbe && !sp.LiveProbe && !sp.Daemon {
+				out = append(out, x.restartCountVerdicts("C09", proc, l)...)
+			}
+		}
+	}
 	for _, sn := range h.Snaps {
 		for name, st := range sn.States {
 			live := sn.Live[name]
